@@ -9,6 +9,8 @@ import NeumannModel.TxWal.Model
   announced is "undecodable".  Entry tokens:
      B:tx:parts   V:tx:shard:y<h>|n   P:tx:from:to   C:tx:c|a   L:tx:h   R:tx   I:tx:reason:shards
   phases are 0..5 in the order of `TxPhase`.
+  `lock <tx> <h>` takes the handle from the harness (handles relabelled by rank); `trylock <tx>`
+  takes it from the model's counter (`set_counter` / `counter` / `state`).
 -/
 open Neumann Neumann.Proto Neumann.FramedLog Neumann.TxWal
 
@@ -189,7 +191,10 @@ def txStep (s : DState) (line : String) : DState × String :=
           ({ s with sizes := [], coord := { cfg := { prepareTimeoutMs := t, maxConcurrent := mx } } }, "ok")
       | _, _ => bad
   | ["restart", h, now] => match unhex h, now.toNat? with
-      | some b, some now => (match restartBytes crc (deOf s.dict) s.coord.cfg b now with
+      -- `restartBytes`, with the counter of the new process where `new` / `set_counter` left it
+      -- (1 unless the harness said otherwise: then this is `restartBytes` itself)
+      | some b, some now => (match (replay crc (deOf s.dict) (openRepair b)).map
+            (fun es => (recoverFromWal { cfg := s.coord.cfg, log := es, nextHandle := s.coord.nextHandle } now).1) with
           | some c =>
               -- the records of the file keep the sizes they have in it
               let ps := (parse crc (fun p => (deOf s.dict p).isSome) (openRepair b)).1
@@ -199,6 +204,15 @@ def txStep (s : DState) (line : String) : DState × String :=
       | _, _ => bad
   | ["lock", tx, h] => match tx.toNat?, h.toNat? with
       | some tx, some h => coordAns s (lockAcquire s.coord tx h) | _, _ => bad
+  -- the handle counter (stream `coord.handles`: real handle numbers, no relabelling).  The harness
+  -- restarts the coordinator inside one OS process, so it tells the model where the process-wide
+  -- counter stands when the "new process" starts (`set_counter`; a real new process starts at 1).
+  | ["set_counter", k] => match k.toNat? with
+      | some k => ({ s with coord := { s.coord with nextHandle := k } }, "ok") | none => bad
+  | ["counter"] => (s, toString s.coord.nextHandle)
+  | ["trylock", tx] => match tx.toNat? with
+      | some tx => ({ s with coord := (tryLock s.coord tx).1 }, toString s.coord.nextHandle) | none => bad
+  | ["state"] => (s, s!"{showCoord s.coord} next={s.coord.nextHandle}")
   | ["begin", id, ps, now] => match id.toNat?, parseNats ps, now.toNat? with
       | some id, some ps, some now => sized s (fun sz c => begin sz c id ps now) | _, _, _ => bad
   | ["vote", id, sh, v, x] => match id.toNat?, sh.toNat?, parseVote v, x.toNat? with
